@@ -139,6 +139,11 @@ func c08Rollback(r *Report, add *ssa.Function) {
 		return
 	}
 	r.OK(key, rule, p.Pos(writes[0].Pos()), "OnRollback → loadState", true)
+	// a write that is rolled back BECAUSE the caller's context was cancelled must still reload: the reload does not run on
+	// the caller's context (fix: the reload failed with "context canceled" and the in-memory digests kept the aborted tx)
+	ctxPkg := "std:context"
+	r.ArgIs("C08.rollback.reload-survives-cancellation", add, Fn("network/dag", "state", "loadState"), 0,
+		OriginV(CallV(AnyOf(Fn(ctxPkg, "", "WithoutCancel"), Fn(ctxPkg, "", "Background"), Fn(ctxPkg, "", "TODO")), -1)), 1)
 }
 
 func c08LoadState(r *Report) {
